@@ -42,6 +42,11 @@ def main():
 
   if args.replay:
     rj = json.load(open(args.replay))
+    if (rj.get('info') or {}).get('kind') == 'solver-raise':
+      # an exception of a real ECDSA check / entry point on a well-formed batch (C02 C08 C16 C17 C18 runs):
+      # the stored protobufs through the stored real entry point, exit 1 iff it raises again
+      from corr import c02s
+      return c02s.replay_solver_raise(rj)
     if hasattr(mod, 'replay'):
       return mod.replay(rj)
     # generic replay: re-run the correspondence with the recorded seed/tier and look for the
